@@ -45,6 +45,9 @@ def gen_system(rng, size=None):
             S.domains[name] = {'length': ln, 'sequence': None}
             S.domains[comp(name)] = {'length': ln, 'sequence': None}
             S.stmts.append(('dl', '%s %s %s %s' % (kw, name, rng.choice('=:'), dl)))
+            if rng.random() < 0.15:
+                S.stmts.append(('dl', '%s %s %s %d' % (rng.choice(['length', 'domain']), rng.choice([name, comp(name)]),
+                                                       rng.choice('=:'), ln)))
         else:
             seq = ''.join(rng.choice(IUPAC) for _ in range(rng.randint(1, 12)))
             S.domains[name] = {'length': len(seq), 'sequence': seq}
@@ -52,7 +55,15 @@ def gen_system(rng, size=None):
             txt = 'sequence %s %s %s' % (name, rng.choice('=:'), seq)
             if rng.random() < 0.5:
                 txt += ' %s %d' % (rng.choice('=:'), len(seq))
+            # a consistent document may declare a domain more than once: its length first (through either orientation),
+            # the sequence constraint later, and the length again afterwards; the declared system is the union
+            if rng.random() < 0.3:
+                S.stmts.append(('dl', '%s %s %s %d' % (rng.choice(['length', 'domain']), rng.choice([name, comp(name)]),
+                                                       rng.choice('=:'), len(seq))))
             S.stmts.append(('sl', txt))
+            if rng.random() < 0.15:
+                S.stmts.append(('dl', '%s %s %s %d' % (rng.choice(['length', 'domain']), rng.choice([name, comp(name)]),
+                                                       rng.choice('=:'), len(seq))))
         base.append(name)
     alld = list(S.domains)
     # composite domains / strands
